@@ -448,3 +448,48 @@ func copyKeys(m map[string]bool) map[string]bool {
 	}
 	return o
 }
+
+// AltVars draws a fresh, valid variable map for the document's variable
+// definitions (same types, other values; some variables left to their defaults).
+func AltVars(r *rand.Rand, s *model.Schema, dc *DocCase) map[string]interface{} {
+	out := map[string]interface{}{}
+	if len(dc.Doc.Ops) == 0 {
+		return out
+	}
+	for _, vd := range dc.Doc.Ops[0].Vars {
+		old, had := dc.Vars[vd.Name]
+		if vd.HasDefault && r.Intn(3) == 0 {
+			continue // fall back to the default this time
+		}
+		if vd.Type.Base() == "Boolean" && !vd.Type.List && (vd.Type.Of == nil || !vd.Type.Of.List) {
+			// directive conditions and boolean arguments: flip or keep
+			if b, isB := old.(bool); isB {
+				if r.Intn(2) == 0 {
+					out[vd.Name] = !b
+				} else {
+					out[vd.Name] = b
+				}
+				continue
+			}
+			if vd.HasDefault {
+				if r.Intn(2) == 0 {
+					out[vd.Name] = r.Intn(2) == 0
+				}
+				continue
+			}
+		}
+		lit := InputLiteral(r, s, vd.Type, 2)
+		j, jsonable := LiteralToJSON(lit)
+		if jsonable && (lit != nil || !vd.Type.NonNull) {
+			if lit == nil && !had {
+				continue
+			}
+			out[vd.Name] = j
+			continue
+		}
+		if had {
+			out[vd.Name] = old
+		}
+	}
+	return out
+}
